@@ -298,3 +298,13 @@ func OpenFinding(id string) bool {
 	}
 	return false
 }
+
+// Shard returns (index, count) of this process among its job's shards.
+func Shard() (int, int) {
+	i, _ := strconv.Atoi(os.Getenv("VERIF_SHARD"))
+	n, _ := strconv.Atoi(os.Getenv("VERIF_SHARDS"))
+	if n < 1 {
+		n = 1
+	}
+	return i, n
+}
